@@ -36,7 +36,7 @@ class Unit:
         self.tiers = {}
         self.timeout, self.mem, self.role = 300, None, ""
         self.env = ""  # "K=V[,K2=V2]": harness must be compiled/run with these extra environment variables
-        self.meta = {"encodes": [], "bounds": [], "stubs": [], "outside": [], "oracle": []}
+        self.meta = {"encodes": [], "bounds": [], "stubs": [], "outside": [], "oracle": [], "probe": []}
 
     @property
     def harness_filter(self):
@@ -333,7 +333,7 @@ def native_finding(spec, word="FINDING", outcomes=("REPRODUCED", "ABSENT")):
     return m.group(1), m.group(0)[:300]
 
 
-def concrete_playback(unit, harness_id, prop):
+def concrete_playback(unit, harness_id, prop, solver_fails=()):
     """Ask Kani for the concrete values of the failing checks; write the replay file; run the
     counterexample natively (dev and release profile, stubs inactive => real code).
     Returns (replay_path, reproduced: True/False/None, record)."""
@@ -346,9 +346,13 @@ def concrete_playback(unit, harness_id, prop):
     cmd = ["cargo", "kani", "-Z", "unstable-options", "-Z", "stubbing", "-Z", "concrete-playback",
            "--concrete-playback=print", "--target-dir", tdir, "--harness-timeout", f"{unit.timeout * 2}s",
            "--harness", harness_id, "--exact"]
-    p = subprocess.run(cmd, cwd=crate_dir, env=ENV, stdout=subprocess.PIPE, stderr=subprocess.STDOUT, text=True,
-                       preexec_fn=_limit(48))
-    out1 = p.stdout
+    if unit.meta.get("probe") and solver_fails:
+        # see below: harnesses that declare probe inputs are replayed with those; Kani's value extraction is not attempted
+        out1 = "(value extraction not attempted: the harness declares probe inputs)"
+    else:
+        p = subprocess.run(cmd, cwd=crate_dir, env=ENV, stdout=subprocess.PIPE, stderr=subprocess.STDOUT, text=True,
+                           preexec_fn=_limit(48))
+        out1 = p.stdout
     tests = []
     for m in re.finditer(r"/// Check for `(\w+)`: (.*?)\n\s*\n?#\[test\]\nfn (kani_concrete_playback_\w+)\(\) \{\s*"
                          r"let concrete_vals: Vec<Vec<u8>> = vec!\[(.*?)\n    \];", out1, re.S):
@@ -365,8 +369,22 @@ def concrete_playback(unit, harness_id, prop):
         # They are replayed instead, but a cover trace may stop before later kani::any() calls (the native run then
         # panics for lack of values): such a run only counts if the panic message is one of the failed checks.
         fail_tests = [dict(t, need_message=True) for t in tests]
+    if not tests and unit.meta.get("probe") and solver_fails:
+        # For the whole-formatter harnesses Kani's value extraction (CBMC without slicing, with traces) needs more than
+        # 48 GB. Such a harness declares the byte sizes of its kani::any() calls (`// @probe 8,8,8`) and a few fixed
+        # probe inputs are run natively instead; a probe only counts if the native panic message is one of the
+        # assertions that failed in the solver run, so what is reported is a concrete input failing on the real code
+        # with the assertion the solver refuted. No probe failing => inconclusive (exit 2), as before.
+        sizes = [int(x) for x in ",".join(unit.meta["probe"]).replace(" ", "").split(",") if x]
+        failed_descs = [d.strip().strip('"').strip() for d in solver_fails]
+        failed_descs = [d for d in failed_descs if len(d) >= 12 and not d.startswith(("free argument", "rust_dealloc"))]
+        for name, byte in (("zeros", 0), ("ones", 1), ("sevens", 7)):
+            vals = "".join("\n        vec![" + ", ".join([str(byte)] + ["0"] * (n - 1)) + "]," for n in sizes)
+            tests.append({"category": "probe", "check": f"probe input '{name}' (value extraction failed)", "test": "probe_" + name,
+                          "vals": vals, "need_message": True})
+        fail_tests = list(tests) if failed_descs else []
     record = {"property": prop, "harness": harness_id, "crate": unit.crate, "source": unit.path,
-              "tests": tests, "kani_output_tail": out1[-3000:], "native": []}
+              "solver_fails": list(solver_fails), "tests": tests, "kani_output_tail": out1[-3000:], "native": []}
     reproduced = None
     if fail_tests:
         reproduced = False
@@ -417,7 +435,7 @@ def replay_file(path):
     if not units:
         log("harness no longer exists")
         return 2
-    rp, reproduced, record = concrete_playback(units[0], rec["harness"], rec["property"])
+    rp, reproduced, record = concrete_playback(units[0], rec["harness"], rec["property"], rec.get("solver_fails") or ())
     for n in record["native"]:
         log(f"  native {n['profile']}: ran={n['ran']} failed={n['failed']}")
     if reproduced:
@@ -516,7 +534,8 @@ def main(argv):
                 log(f"           (not replayed: {len(violations)} violations of {prop} already reproduced in this run)")
                 r["why"] = "assertion failed; not replayed because other counterexamples were already reproduced"
                 continue
-            rp, reproduced, record = concrete_playback(r["unit"], r["harness"], prop)
+            rp, reproduced, record = concrete_playback(r["unit"], r["harness"], prop,
+                                                       [c["description"] for c in unlisted])
             r["replay"] = rp
             if reproduced:
                 violations.append((r, rp))
